@@ -25,6 +25,10 @@ func init() {
 			c.min("R-MASKSHIFT", 3)
 			c.ruleDirPrune()
 			c.min("R-DIRPRUNE", 4)
+			c.ruleFieldMap()
+			c.ruleRangeCount()
+			c.min("R-RANGECOUNT", 2)
+			c.min("R-FIELDMAP", 5)
 		})
 	register("C32", "dominance rules on full-sync validation and import ordering (R-STATEDHASH, R-CHAIN, R-PARENTKNOWN)",
 		"Decides: a block response is kept only after every block's stated hash was compared with the hash of its header and the headers were checked to be a parent-linked chain (both checks dominate the append to the valid set); blocks are queued for import only on the edge where the parent of the FIRST block of exactly the slice being queued is known to the block state, and importBlock is only invoked on elements of that queue, in order; fragments whose parent is unknown are parked, not imported. "+
@@ -35,6 +39,8 @@ func init() {
 			c.ruleFullSync()
 			c.min("R-STATEDHASH", 2)
 			c.min("R-PARENTKNOWN", 3)
+			c.ruleNonEmptyFrag()
+			c.min("R-NONEMPTYFRAG", 4)
 		})
 	register("C33", "explicit-panic reachability from every network decoder (R-NOPANIC), guarded slice-to-array conversions and slicing (R-SLICE2ARRAY), short-read/allocation rules of the SCALE decoder they funnel into (R-READFULL, R-ALLOC)",
 		"Decides, for the decoders of block announcements, handshakes, transactions, block requests/responses, state and warp-sync requests, light messages and GRANDPA messages: no explicit panic() is reachable in the module call graph (static + CHA + reflect edges of pkg/scale) except those tabled as unreachable; every conversion of a peer-supplied slice to a fixed-size array and every constant-bound reslice of such a slice is dominated by a length check; the SCALE primitives they use check their read counts and bound their allocations (same rules as C12, with the recorded byte-string findings). "+
@@ -46,6 +52,12 @@ func init() {
 			c.min("R-SLICE2ARRAY", 1)
 			c.ruleReadFull("R-READFULL", "pkg/scale")
 			c.ruleAlloc("R-ALLOC", 1<<17, "pkg/scale")
+			c.ruleLenSign("pkg/scale")
+			c.ruleFrameBound()
+			c.ruleDecodeCopy()
+			c.min("R-FRAMEBOUND", 1)
+			c.min("R-DECODECOPY", 12)
+			c.min("R-LENSIGN", 4)
 		})
 	register("C37", "guarded slicing (R-BOUNDS), resolved AEAD/nonce callees (R-CALLEE), explicit-panic reachability (R-NOPANIC) on lib/keystore",
 		"Decides: Decrypt slices the nonce off the ciphertext only after checking the length, opens the AES-GCM box and returns its error (authentication failure is never ignored, the plaintext is returned only on the success edge); Encrypt draws a fresh nonce of gcm.NonceSize() bytes from crypto/rand through io.ReadFull and seals with it; the key is derived from the password by BLAKE2b-256 on both sides by the same helper; DecryptPrivateKey/ReadFromFileAndDecrypt return Decrypt's error before decoding the key; no explicit panic is reachable from the decrypting entry points. "+
